@@ -9,12 +9,15 @@
 //     drop, committed transactions (insert, update, delete), an abandoned
 //     (aborted) transaction, persist, close+reopen; from the empty database
 //     and from a populated seed.
-//  2. chain driver: long histories (up to 14 / 20 events) over a small
-//     alphabet (view add/drop, create/drop table, insert/delete row, persist,
-//     close+reopen) so that the metadata chains of schema and info advance
-//     their persist clocks independently, merge chunks (nmerge patterns for
-//     clock 1,3,7,...) and flatten at maxChain=7; tombstones of dropped tables
-//     and views have to survive every one of these shapes.
+//  2. chain driver: persist cycles. Each macro event is one small change (view
+//     add/drop = schema chain only, row insert/delete = info chain only,
+//     create/drop table = both) followed by a persist or by a clean
+//     close+reopen; searched to depth 6 / 12 on top of a table that always
+//     exists and to depth 5 / 8 from the empty database, so that the metadata
+//     chains of schema and info advance their persist clocks independently,
+//     merge chunks (nmerge patterns) and grow to maxChain=7 where they are
+//     flattened; tombstones of dropped tables and views have to survive every
+//     one of these shapes (finding F3).
 //
 // States are deduplicated on (reference model state, abstract persistence
 // state = dirty flags, persist clocks and chain lengths of the schema and
@@ -34,6 +37,7 @@ import (
 	"encoding/json"
 	"fmt"
 	"math/bits"
+	"os"
 	"sort"
 	"strings"
 
@@ -123,6 +127,8 @@ func mainAlphabet(thorough bool) []drive.Event {
 		ins("b", M{"k": "1", "ak": "1"}, M{"k": "2"}),
 		upd("a", M{"k": "1"}, M{"y": "r", "x": "o"}),
 		del("b", M{"k": "1"}),
+		drive.Tx(dbmodel.RowOp{Kind: "delete", Table: "a", Row: M{"k": "1"}},
+			dbmodel.RowOp{Kind: "delete", Table: "a", Row: M{"k": "2"}}), // empties a (blocked while b references row 1)
 		drive.Abandon(insOps("a", M{"k": "9", "x": "u"})...),
 		drive.Persist(),
 		drive.Reopen(),
@@ -238,6 +244,11 @@ const (
 	// merged) and no live item is left, nothing is written and the old chunk
 	// stays referenced; everything dropped since reappears after reopen.
 	classEmptyFlatten = "drop-all-flatten-keeps-old-chunk"
+	// Meta.Persist decides per table whether its indexes have to be saved by
+	// looking at the first index only; an index built over existing, not yet
+	// persisted rows (alter create / ensure on a table with data) then holds
+	// changes the first index does not, and they are never written.
+	classStaleBuilt = "built-index-changes-not-persisted"
 )
 
 type failCase struct {
@@ -294,6 +305,67 @@ func emptyAtPersistPoint(path []drive.Event) (schemaEmpty, infoEmpty bool) {
 	return
 }
 
+// builtIndexTables replays the history on the model alone and returns the
+// tables to which an index was added while they held rows (the index is then
+// built from the existing data: Database.buildIndexes).
+func builtIndexTables(path []drive.Event) map[string]bool {
+	m := dbmodel.New()
+	built := map[string]bool{}
+	for _, ev := range drive.Flatten(path) {
+		switch ev.Kind {
+		case "admin":
+			r := ev.Req
+			t := m.Tables[r.Table]
+			hadRows := t != nil && len(t.Rows) > 0
+			nidx := 0
+			if t != nil {
+				nidx = len(t.Idx)
+			}
+			if m.Admin(*r) == nil && hadRows && (r.Kind == "alter_create" || r.Kind == "ensure") {
+				if t2 := m.Tables[r.Table]; t2 != nil && len(t2.Idx) > nidx {
+					built[r.Table] = true
+				}
+			}
+			if r.Kind == "rename" && m.Tables[r.To[0]] != nil && built[r.From[0]] {
+				built[r.To[0]] = true
+			}
+		case "tx":
+			m.Tx(ev.Ops)
+		}
+	}
+	return built
+}
+
+// staleBuiltIndex recognises the symptom of the third defect: after the
+// reopen everything equals the observation before closing except that, in
+// tables to which an index was added over existing rows, indexes other than
+// the first deliver other rows than before (changes made after the index was
+// built were not written for them).
+func staleBuiltIndex(before, after *drive.Obs, path []drive.Event) bool {
+	if len(before.Tables) != len(after.Tables) {
+		return false
+	}
+	built := builtIndexTables(path)
+	fixed := *after
+	fixed.Tables = append([]drive.TableObs(nil), after.Tables...)
+	any := false
+	for i := range fixed.Tables {
+		bt, at := before.Tables[i], fixed.Tables[i]
+		if bt.Name != at.Name || len(bt.Idx) != len(at.Idx) || !built[at.Name] {
+			continue
+		}
+		at.Idx = append([]drive.IdxObs(nil), at.Idx...)
+		for j := 1; j < len(at.Idx); j++ {
+			if fmt.Sprint(at.Idx[j].Rows) != fmt.Sprint(bt.Idx[j].Rows) {
+				at.Idx[j].Rows, at.Idx[j].Keys, at.Idx[j].Size = bt.Idx[j].Rows, bt.Idx[j].Keys, bt.Idx[j].Size
+				any = true
+			}
+		}
+		fixed.Tables[i] = at
+	}
+	return any && fixed.Text() == before.Text()
+}
+
 // classify computes the precise class of a failed reopen comparison:
 // before = observation right before closing (agrees with the model), after =
 // observation after reopening.
@@ -311,6 +383,9 @@ func classify(before, after *drive.Obs, m *dbmodel.DB, path []drive.Event) strin
 	exViews := minus(views, m.ViewNames())
 	exInfos := minus(after.InfoNames, m.TableNames())
 	if len(exTabs)+len(exViews)+len(exInfos) == 0 {
+		if staleBuiltIndex(before, after, path) {
+			return classStaleBuilt
+		}
 		return ""
 	}
 	// is resurrection the ONLY difference? remove the resurrected items
@@ -357,7 +432,7 @@ func judge(c *lib.Ctx) func(s *drive.Sys, path []drive.Event, changed bool) []dr
 			// a reopen inside the path (or a live operation) already went wrong
 			class := ""
 			if s.Before != nil && len(drive.CompareObs(s.Before, s.M, drive.CompareOpts{})) == 0 {
-				class = classify(s.Before, live, s.M, path)
+				class = classify(s.Before, live, s.M, s.Log)
 			}
 			for _, d := range liveDiffs {
 				vs = append(vs, drive.Violation{Class: class, Msg: where + " (live): " + d})
@@ -372,7 +447,7 @@ func judge(c *lib.Ctx) func(s *drive.Sys, path []drive.Event, changed bool) []dr
 		diffs := drive.CompareObs(after, s.M, drive.CompareOpts{})
 		class := ""
 		if len(diffs) > 0 {
-			class = classify(s.Before, after, s.M, path)
+			class = classify(s.Before, after, s.M, s.Log)
 		}
 		for _, d := range diffs {
 			vs = append(vs, drive.Violation{Class: class, Msg: where + " and clean close + reopen: " + d})
@@ -388,6 +463,20 @@ func judge(c *lib.Ctx) func(s *drive.Sys, path []drive.Event, changed bool) []dr
 	}
 }
 
+// newSys: a fresh database whose close+reopen events are watched: a reopen
+// that disagrees with the model taints the rest of the path (see drive.Sys).
+func newSys() *drive.Sys {
+	s := drive.NewHeap()
+	s.OnReopen = func(s *drive.Sys) (string, bool) {
+		after := drive.Observe(s.DB)
+		if len(drive.CompareObs(after, s.M, drive.CompareOpts{})) == 0 {
+			return "", false
+		}
+		return classify(s.Before, after, s.M, s.Log), true
+	}
+	return s
+}
+
 // recordShape counts the distinct real chain shapes reached (coverage only).
 func recordShape(c *lib.Ctx, db *db19.Database) {
 	so, sa, sc, io, ia, ic := db.GetState().Meta.VerifChainShape()
@@ -401,7 +490,20 @@ func recordShape(c *lib.Ctx, db *db19.Database) {
 
 func run(c *lib.Ctx) {
 	defer drive.Quiet()()
+	// development aid: VERIF_ASSUME_KNOWN=class,class counts failures of these
+	// classes instead of reporting them (as a KNOWN_FINDINGS entry would), so
+	// that the rest of the search can be inspected on the unchanged tree
+	assume := map[string]bool{}
+	for _, cl := range strings.Split(os.Getenv("VERIF_ASSUME_KNOWN"), ",") {
+		if cl != "" {
+			assume[cl] = true
+		}
+	}
 	fail := func(v drive.Violation, path []drive.Event) {
+		if v.Class != "" && assume[v.Class] {
+			c.Count("assumed_known_"+v.Class, 1)
+			return
+		}
 		c.Fail(v.Class, failCase{Events: path, Text: drive.EventsText(path)}, "%s\n  history: %s",
 			v.Msg, strings.Join(drive.EventsText(path), " ; "))
 	}
@@ -409,24 +511,24 @@ func run(c *lib.Ctx) {
 	c.Set("main_alphabet", drive.EventsText(evs))
 	// 1a. main search from the empty database
 	d1 := lib.Pick(c, 4, 5)
-	x1 := &drive.Explorer{C: c, Events: evs, MaxDepth: d1, New: drive.NewHeap, Abs: absStep, Judge: judge(c), Fail: fail}
+	x1 := &drive.Explorer{C: c, Events: evs, MaxDepth: d1, New: newSys, Abs: absStep, Judge: judge(c), Fail: fail}
 	x1.Run(nil)
 	// 1b. from a populated seed with persisted history and one reopen
 	seed := []drive.Event{evs[0], evs[1], evs[11], evs[12], drive.Persist(), view("v", "a join b"),
 		drive.Reopen(), upd("a", M{"k": "2"}, M{"y": "s"})}
 	d2 := lib.Pick(c, 3, 4)
-	x2 := &drive.Explorer{C: c, Events: evs, MaxDepth: d2, New: drive.NewHeap, Abs: absStep, Judge: judge(c), Fail: fail}
+	x2 := &drive.Explorer{C: c, Events: evs, MaxDepth: d2, New: newSys, Abs: absStep, Judge: judge(c), Fail: fail}
 	x2.Run(seed)
 	// 2. chain driver: persist cycles, on top of a table that always exists
 	// (so that the chains are never empty) and from the empty database
 	cevs := chainAlphabet()
 	keep := []drive.Event{req("create", "keep", "k", ix('k', "k")), ins("keep", M{"k": "1"})}
-	d3 := lib.Pick(c, 7, 12)
-	x3 := &drive.Explorer{C: c, Events: cevs, MaxDepth: d3, New: drive.NewHeap, Abs: absStep, Judge: judge(c), Fail: fail,
+	d3 := lib.Pick(c, 6, 12)
+	x3 := &drive.Explorer{C: c, Events: cevs, MaxDepth: d3, New: newSys, Abs: absStep, Judge: judge(c), Fail: fail,
 		MaxTransitions: lib.Pick(c, 40000, 300000)}
 	x3.Run(keep)
 	d4 := lib.Pick(c, 5, 8)
-	x4 := &drive.Explorer{C: c, Events: cevs, MaxDepth: d4, New: drive.NewHeap, Abs: absStep, Judge: judge(c), Fail: fail,
+	x4 := &drive.Explorer{C: c, Events: cevs, MaxDepth: d4, New: newSys, Abs: absStep, Judge: judge(c), Fail: fail,
 		MaxTransitions: lib.Pick(c, 20000, 100000)}
 	x4.Run(nil)
 	if c.Shard == 0 {
@@ -446,7 +548,7 @@ func run(c *lib.Ctx) {
 		c.Set("states_chain_from_empty", x4.States)
 		c.Set("transitions_chain_from_empty", x4.Transitions)
 		h := []drive.Event{evs[0], evs[1], evs[11], evs[12], drive.Persist(), evs[3], drive.Reopen()}
-		s, _, _ := drive.Replay(drive.NewHeap, h)
+		s, _, _ := drive.Replay(newSys, h)
 		var tabs []string
 		for _, t := range drive.Observe(s.DB).Tables {
 			tabs = append(tabs, fmt.Sprintf("%s nrows=%d", t.Schema, t.Nrows))
@@ -463,7 +565,7 @@ func replay(c *lib.Ctx, raw json.RawMessage) {
 	if err := json.Unmarshal(raw, &fc); err != nil {
 		lib.Infra("bad case: %v", err)
 	}
-	s, bad, msg := drive.Replay(drive.NewHeap, fc.Events)
+	s, bad, msg := drive.Replay(newSys, fc.Events)
 	defer s.Close()
 	if bad >= 0 {
 		c.Fail("", fc, "%s", msg)
